@@ -537,6 +537,7 @@ pub fn def() -> PropDef {
         needs_pairing: false,
         subs: vec![
             Box::new(crate::engine::EnumSub { name: "long-history", rule: super::longhist::RULE, run: run_long_history, replay: super::longhist::replay, exhaustive: false }),
+            Box::new(crate::engine::EnumSub { name: "two-input-bursts", rule: super::longhist::BURST_RULE, run: run_two_input_bursts, replay: super::longhist::replay_burst, exhaustive: false }),
             Box::new(Sub { name: "serdes", rule: "serialize bytes == model image; deserialize outcome / consumption / value decided by the model from the bytes", quick: 24_000, thorough: 250_000, strategy: || boxed(ser_case_strategy()), check: check_ser }),
             Box::new(Sub { name: "related-streams", rule: "2..5 reads back to back of variants of ONE value's image (bit flips, replaced component, negated point, opposite flag, prefixes, the image again), each decided by the model from its own bytes (no dependence on earlier reads)", quick: 4_000, thorough: 50_000, strategy: || boxed(ser_seq_strategy()), check: check_ser_seq }),
             Box::new(Sub { name: "multi-item-streams", rule: "2..5 values of mixed types and flags concatenated and read back through one chunking reader: every item delivered with exact consumption until the first due error", quick: 4_000, thorough: 50_000, strategy: || boxed(multi_strategy()), check: check_multi }),
